@@ -160,7 +160,6 @@ DescribesP(g, S, split, H) ==
               /\ XYExact(g, H[i].x, H[i].y) /\ XY2RC(g, H[i].x, H[i].y) = <<H[i].row, H[i].col>>
               /\ H[i].adc = AdcOf(g, orig)
               /\ H[i].shift = ShiftNum(g, orig)
-              /\ H[i].flag = 1
 
 \* sorting off: on-disk order
 UnsortedP(H, IDX) == \A i \in 1..Len(H) : H[i].ind = i - 1 /\ IDX[i] = i - 1
